@@ -91,6 +91,22 @@ def r1_aligned_pointer(ctx):
             simp(v[2][1])[0] == 'arg' and simp(v[2][1])[1] == 3
         ctx.check(ok, 'fit-returns-aligned-start', 'alloc_from_region returns align_up(region start, align)', fr.where_path(path), show(v)[:160])
     ctx.floor('Ok paths of alloc_from_region', n, 1)
+    # (c2) the alignment handed to find_region is at least the requested layout's: size_align derives it from the layout
+    fs = ctx.anchor(IN + '::size_align')
+    if fs:
+        n_sa = 0
+        for b_, t in ret_trees(fs):
+            t = peel(t)
+            if not (t[0] == 'agg' and t[1] == 'tuple' and len(t[2]) == 2):
+                continue
+            n_sa += 1
+            al = t[2][1]
+            from_layout = any(x[0] == 'call' and x[1].endswith('Layout::align') and any(y[0] == 'arg' and y[1] == 1 for y in walk(x)) for x in walk(al))
+            widened = any(x[0] == 'call' and x[1].endswith(('Layout::align_to', '::max')) for x in walk(al))
+            ctx.check(from_layout, 'align-from-layout',
+                      "size_align returns an alignment derived from the requested layout's own alignment (raised to the free-list node's, never replaced by it): a block for an over-aligned type is aligned for that type",
+                      fs.where(b_), {'align': show(al)[:200], 'raised_to_node_alignment': widened})
+        ctx.floor('tuple returns of size_align', n_sa, 1)
     # (d) align_up shape
     for b, t in ret_trees(fu):
         v = simp(t)
@@ -260,6 +276,39 @@ def r4_node_typestate(ctx):
                       '(a stale prev/next would be followed into freed — and soon reused — memory)' % short(key), f.where_path(path),
                       {'kill_events': len(kill)})
         ctx.floor('re-boxing paths of %s' % short(key), n, 1)
+        # sentinels are never freed: whatever destroys a re-boxed node is guarded by "this node has a successor" (= it is not the tail),
+        # tested on the very node (the walked pointer is not advanced between the test and the destruction)
+        from .engine.helpers import _chase, _single_def
+        kills = [s.b for s in f.calls() if s.name in ('std::mem::drop', 'des_cqueue::stable::linked_list::EventNode::into_inner') and s.argtys and 'LocalBox' in s.argtys[0]]
+        kills += [b for b in sorted(f.reachable()) if not f.is_cleanup(b) and f.term(b)['k'] == 'drop' and 'LocalBox' in f.term(b)['ty'] and 'EventNode' in f.term(b)['ty']]
+        if ctx.floor('node destruction sites in %s' % short(key), len(kills), 1):
+            for kb in kills:
+                ok = False
+                for (sblk, cond, val) in f.guards(kb):
+                    if f.term(sblk)['k'] != 'switch':
+                        continue
+                    a = atom_of(cond, val, f.switch_ty(sblk))
+                    if not (a and a[0] == 'bool' and a[2] is False and a[1][0] == 'call' and a[1][1].endswith('::is_null') and any(x[0] == 'field' and x[2] == 'next' for x in walk(a[1]))):
+                        continue
+                    # the pointer whose `.next` was tested
+                    nul = [c for c in f.calls() if c.name.endswith('::is_null') and f.dominates(c.b, sblk) and any(x[0] == 'field' and x[2] == 'next' for x in walk(f.expr_operand(c.args[0], c.b, 'T')))]
+                    base = None
+                    if nul:
+                        op = nul[-1].args[0]
+                        st = _single_def(f, op['p']['l']) if op.get('k') in ('copy', 'move') and not op['p']['pr'] else None
+                        o2 = st['r'].get('o') if st is not None and st['r']['k'] == 'use' else None
+                        if o2 is not None and o2.get('k') in ('copy', 'move') and o2['p']['pr']:
+                            base = o2['p']['l']
+                    if base is None:
+                        ok = True   # tested through a box / reference that is not reassigned (pop_min)
+                        break
+                    redefs = [d for d in f._defs() if d[0] == base and d[1] in f.reach_from(sblk) and kb in f.reach_from(d[1]) and d[1] not in (sblk, kb) and not back_only(f, d[1], kb, sblk)]
+                    if not redefs:
+                        ok = True
+                        break
+                ctx.check(ok, 'sentinel-never-freed:%s' % key.split('::')[-1],
+                          '%s: a node is destroyed only after it was found to have a successor (it is not the tail sentinel, which the list still owns): the end-of-list test precedes every inspection that can lead to a removal'
+                          % short(key), f.where(kb))
 
 
 def _is_node_ptr(t):
